@@ -6,6 +6,11 @@ pyramid-edge and elliptic-normal forces >= 0; elliptic forces inside their frict
 frictionloss; SATISFIED rows carry exactly zero force; states legal for the row type and uniform within an elliptic
 contact; qfrc_constraint = J^T efc.force; contact_force normal >= -adhesion. The invariants live in
 mon/props/_efc.py:admissibility() and are also called by C06 on its workload.
+
+Besides single states and short rollouts the workload contains HISTORIES (mon/props/_hist.py): multi-world call sequences
+in which a world's row count changes between calls (rows -> none -> rows, through per-world state rewrites, reset_data
+with a mask, eq_active toggles, bodies leaving contact) while other worlds keep theirs; worlds without rows are judged too
+(J^T efc.force is the empty sum, so qfrc_constraint must vanish).
 """
 
 import mujoco
@@ -14,6 +19,7 @@ import numpy as np
 from mon import core, gen, mw
 from mon.props import C06
 from mon.props import _efc as E
+from mon.props import _hist as H
 from mon.props import _scenes as S
 
 ID = "C24"
@@ -22,7 +28,13 @@ RULE = (
   "case=(kind,seed): generated constraint scene (equalities, dof/tendon friction loss, joint/tendon limits, contacts of "
   "condim 1/3/4/6 with margins and geom adhesion, adhesion actuators), pile, closed loop or repository model; both cones, "
   "both solvers, dense/sparse; 3 worlds; invariants evaluated after forward() and after each of 4 step()s (warm-started "
-  "solves on moving states). Non-trivial: >=1 evaluation with >=3 rows carrying non-zero force; distinct by hash(xml, qpos, qvel)."
+  "solves on moving states). Non-trivial: >=1 evaluation with >=3 rows carrying non-zero force; distinct by hash(xml, qpos, qvel). "
+  "kind=hist (histories): 2..5 worlds of a scene without dry friction (free bodies over a plane, limited arm, connect/joint/weld "
+  "equalities, tendon limit), 10 calls (forward or step); between calls single worlds are rewritten (qpos/qvel/eq_active), reset "
+  "with a reset_data mask, have eq_active toggled, or bounce off the floor, so that their row count goes rows -> 0 -> rows while "
+  "a keeper world (world 0 in 2 of 3 cases, else the last) keeps its rows; now and then all worlds are emptied at once. Every world "
+  "is judged after every call, worlds with nefc == 0 included (qfrc_constraint must be the empty sum). Non-trivial: a world that "
+  "carried constraint force is judged with nefc == 0 while another world has rows."
 )
 ASSUMPTIONS = [
   "sign and cone conventions are MuJoCo's documented ones (force >= 0 pushes out of the constraint; elliptic cone "
@@ -30,8 +42,15 @@ ASSUMPTIONS = [
   "float32 allowances: cone membership 1e-4 relative, friction loss 1e-5 relative, qfrc_constraint 128*eps32*(|J|^T|f| + "
   "|Ma| + |qfrc_smooth| + start-point terms) because Newton/pyramidal reconstructs it as Ma - qfrc_smooth - grad",
   "worlds whose row capacity overflowed are skipped (C16); iteration-limit worlds ARE judged (admissibility does not need convergence)",
+  "a world with nefc == 0 has J^T efc.force = 0: qfrc_constraint is judged against 128*eps32*(|Ma| + |qfrc_smooth| + |M||warmstart|) + 1e-6 "
+  "(Newton/pyramidal reconstructs it as Ma - qfrc_smooth - grad; every other path writes exact zeros)",
+  "histories, Newton/pyramidal: the start-point terms of the qfrc_constraint allowance also contain |J|^T |f(J start - aref)|, the "
+  "row forces at the start point of the solve (warmstart, or qacc_smooth with WARMSTART disabled): after a rewrite/reset the start "
+  "point is far from the solution and the reconstruction's round-off is ~1 eps32 of that magnitude",
+  "history events only use public state arrays (qpos, qvel, eq_active) and mjw.reset_data(reset=mask); the states they write are "
+  "accepted by MuJoCo (finite qacc < 1e5, no warning)",
 ]
-BUDGET = {"quick": 120, "thorough": 1200}
+BUDGET = {"quick": 170, "thorough": 1500}
 
 PROFILE = gen.profile(
   **{
@@ -52,6 +71,11 @@ def cases(tier, seed):
   ngen = 50 if tier == "quick" else 1000
   nscene = 20 if tier == "quick" else 300
   combos = [(c, s, j) for c in ("pyramidal", "elliptic") for s in ("Newton", "CG") for j in ("dense", "sparse")]
+  # histories (row counts of single worlds change between calls): every cone x solver x jacobian equally often, world 0
+  # keeps its rows in two cases of three, the last world does in the third. Listed first: they are the cheapest cases.
+  for i in range(48 if tier == "quick" else 800):
+    c, s, j = combos[i % 8]
+    out.append({"id": f"hist{seed}_{i}", "kind": "hist", "seed": seed * 100000 + 30000 + i, "cone": c, "solver": s, "jac": j, "keep0": int((i // 8) % 3 != 2)})
   for i in range(ngen):
     out.append({"id": f"gen{seed}_{i}", "kind": "gen", "seed": seed * 100000 + i, "settle": (0, 20)[i % 2], "exact_geoms": 0})
   for i in range(nscene):
@@ -69,6 +93,8 @@ def cases(tier, seed):
 def run_case(case):
   import mujoco_warp as mjw
 
+  if case["kind"] == "hist":
+    return run_hist(case)
   rec = core.Rec(case)
   rng = np.random.default_rng(case["seed"] + 11)
   if case["kind"] == "gen":
@@ -131,7 +157,7 @@ def run_case(case):
       if not E.capacity_ok(d, w, rows):
         rec.count("evaluations_capacity_exceeded")
         continue
-      n = E.admissibility(rec, mjm, m, d, w, rows=rows, contact_force=True, start=ws[w])
+      n = E.admissibility(rec, mjm, m, d, w, rows=rows, contact_force=True, start=ws[w], judge_empty=True)
       rec.cover("evaluations", 1)
       rec.cover(f"evaluations:{solver}:{cone}:{'sparse' if m.is_sparse else 'dense'}", 1)
       rec.cover("evaluations_after:" + ("forward" if k == 0 else "step"), 1)
@@ -152,10 +178,247 @@ def run_case(case):
   return rec.result()
 
 
+HIST_CALLS = 10
+EMPTYING = ("write_free", "reset", "eq_off", "write_bounce")
+
+
+def _hist_event(rng, info, cur, nonempty_now):
+  """Chooses what happens to one flipping world before the next call: (mechanism, target kind) or None."""
+  if rng.random() >= 0.55:
+    return None
+  want_empty = rng.random() < (0.8 if nonempty_now else 0.25)
+  has_eq = bool(info["eq"])
+  if want_empty:
+    opts = ["write_free", "write_free"]
+    if info["lifted0"]:
+      opts += ["reset", "reset"]
+    if cur == "eqonly":
+      opts += ["eq_off"] * 3
+    if cur in ("rest", "bounce"):
+      opts += ["write_bounce"]
+  else:
+    opts = ["write_rest", "write_rest"]
+    if not info["lifted0"]:
+      opts += ["reset", "reset"]
+    if has_eq:
+      opts += ["write_eqonly"]
+      if cur == "free":
+        opts += ["eq_on", "eq_on"]
+  mech = opts[int(rng.integers(len(opts)))]
+  kind = {"write_free": "free", "write_rest": "rest", "write_bounce": "bounce", "write_eqonly": "eqonly", "eq_off": "free", "eq_on": "eqonly", "reset": "free" if info["lifted0"] else "rest"}[mech]
+  return mech, kind
+
+
+def run_hist(case):
+  """Histories: several worlds of one scene; between calls a world's state is rewritten / reset with a mask / has its
+  equalities toggled / bounces off the floor, so that its row count goes rows -> none -> rows while at least one other
+  world (world 0 in two cases of three) keeps its rows. The invariants are judged after every call in every world."""
+  import mujoco_warp as mjw
+
+  rec = core.Rec(case)
+  rng = np.random.default_rng(case["seed"] + 23)
+  xml, info = H.scene(rng, case["cone"], case["solver"], case["jac"])
+  mjm = gen.compile_xml(xml)
+  if mjm is None:
+    rec.rejected = "mujoco compile"
+    return rec.result()
+  try:
+    m = mw.put_model(mjm)
+  except (NotImplementedError, ValueError) as e:
+    rec.rejected = f"put_model: {e}"[:200]
+    rec.count("rejected_put_model")
+    return rec.result()
+  combo = f"{case['solver']}:{case['cone']}:{'sparse' if m.is_sparse else 'dense'}"
+  nworld = int(rng.integers(2, 6))
+  keepers = {0} if case["keep0"] else {nworld - 1}
+  if nworld >= 4 and rng.random() < 0.3:
+    keepers.add(int(rng.integers(1, nworld - 1)))
+
+  def draw(kind, want_empty=None, tries=6):
+    for _ in range(tries):
+      st = H.state(mjm, info, rng, kind)
+      if st is None:
+        return None
+      if kind == "rest" and rng.random() < 0.5:
+        st = dict(S.settle(mjm, st, 15), kind="rest")
+      nefc, ncon, ok = H.classify(mjm, st)
+      if ok and (want_empty is None or (nefc == 0) == want_empty):
+        st["nefc_mj"], st["ncon_mj"] = nefc, ncon
+        return st
+    return None
+
+  states, cur = [], []
+  for w in range(nworld):
+    kind = "rest" if (w in keepers or rng.random() < 0.8) else "free"
+    st = draw(kind, want_empty=(kind == "free"))
+    if st is None:
+      rec.rejected = f"no usable {kind} state"
+      rec.count("rejected_hist_state")
+      return rec.result()
+    states.append(st)
+    cur.append(kind)
+  probe = [draw("rest") for _ in range(4)]
+  need = max([s["nefc_mj"] for s in states] + [s["nefc_mj"] for s in probe if s is not None])
+  ncon = max([s["ncon_mj"] for s in states] + [s["ncon_mj"] for s in probe if s is not None])
+  njmax = next((c for c in C06.NJMAX if c >= 2 * need + 16), None)
+  if njmax is None:
+    rec.rejected = f"scene needs {need} rows"
+    rec.count("rejected_too_many_rows")
+    return rec.result()
+  d = mw.make_data(mjm, m, states, njmax=njmax, nconmax=max(64, 3 * ncon + 16))
+  had_force = [False] * nworld  # some earlier call left a non-zero qfrc_constraint in this world
+  was_empty_after_force = [False] * nworld
+  last_nefc = [None] * nworld
+  last_qfrc = [0.0] * nworld
+  quiet = [0] * nworld
+  warm_disabled = bool(mjm.opt.disableflags & mujoco.mjtDisableBit.mjDSBL_WARMSTART)
+  nontriv = False
+  calls = []
+  for k in range(HIST_CALLS):
+    mech_of = {}
+    if k:
+      writes, wstates, resets, togg, tvals = [], [], [], [], []
+      everyone = rng.random() < 0.06  # now and then every world (keepers too) loses its rows at once
+      for w in range(nworld):
+        if w in keepers and not everyone:
+          continue
+        ev = ("write_free", "free") if everyone else _hist_event(rng, info, cur[w], bool(last_nefc[w]))
+        if quiet[w] > 0 and not everyone:
+          quiet[w] -= 1  # a bouncing world is left alone for two calls so that it leaves the floor by itself
+          continue
+        if ev is None:
+          continue
+        mech, kind = ev
+        quiet[w] = 2 if mech == "write_bounce" else 0
+        if mech == "reset":
+          resets.append(w)
+        elif mech in ("eq_off", "eq_on"):
+          v = np.zeros(mjm.neq, dtype=bool)
+          if mech == "eq_on":
+            v[:] = [(name != "weld") or info["lifted0"] for name in info["eq"]]
+            if not v.any():
+              continue
+          togg.append(w)
+          tvals.append(v)
+        else:
+          st = draw(kind, want_empty=True if kind == "free" else (False if kind in ("rest", "eqonly") else None))
+          if st is None:
+            rec.count("hist_event_state_not_found")
+            continue
+          writes.append(w)
+          wstates.append(st)
+        mech_of[w] = mech
+        cur[w] = kind
+        rec.cover("hist:event:" + mech, 1)
+      H.reset_worlds(m, d, resets)
+      H.write_worlds(d, writes, wstates)
+      H.toggle_eq(d, togg, tvals)
+      if everyone:
+        for w in keepers:  # they come back on the following call
+          cur[w] = "pending_rest"
+      else:
+        back = [w for w in keepers if cur[w] == "pending_rest"]
+        sts = [draw("rest", want_empty=False) for _ in back]
+        if all(s is not None for s in sts):
+          H.write_worlds(d, back, sts)
+          for w in back:
+            cur[w] = "rest"
+    ws = np.array(mw.npy(d.qacc_warmstart), dtype=np.float64)[:, : mjm.nv]
+    call = "forward" if rng.random() < 0.3 else "step"
+    calls.append(call)
+    if call == "forward":
+      mjw.forward(m, d)
+    else:
+      mjw.step(m, d)
+    if not np.all(np.isfinite(mw.npy(d.qacc))) or not np.all(np.isfinite(mw.npy(d.qpos))):
+      rec.count("rollout_diverged(stopped)")
+      break
+    if warm_disabled:  # the solve started from qacc_smooth (same state: step() integrates after the solve)
+      ws = np.array(mw.npy(d.qacc_smooth), dtype=np.float64)[:, : mjm.nv]
+    nefc = [int(x) for x in mw.npy(d.nefc)]
+    qfc = np.abs(np.asarray(mw.npy(d.qfrc_constraint), dtype=np.float64)[:, : mjm.nv]).max(axis=1)
+    for w in range(nworld):
+      rows = mw.efc_rows(mjm, m, d, w)
+      if not E.capacity_ok(d, w, rows):
+        rec.count("evaluations_capacity_exceeded")
+        last_nefc[w] = nefc[w]
+        continue
+      E.admissibility(rec, mjm, m, d, w, rows=rows, contact_force=True, start=ws[w], judge_empty=True, start_force=True)
+      rec.cover("evaluations", 1)
+      rec.cover(f"evaluations:{combo}", 1)
+      rec.cover("evaluations_after:" + call, 1)
+      rec.cover("hist:evaluations", 1)
+      others = any(nefc[v] > 0 for v in range(nworld) if v != w)
+      if nefc[w] == 0:
+        rec.cover("hist:empty_world_evaluations", 1)
+        if not others:
+          rec.cover("hist:all_worlds_empty_evaluations", 1)
+        if had_force[w]:
+          was_empty_after_force[w] = True
+          rec.cover("hist:emptied_after_force", 1)
+          if others:
+            rec.cover(f"hist:emptied_after_force_others_have_rows:{combo}", 1)
+            nontriv = True
+            if w > 0 and nefc[0] > 0:
+              rec.cover("hist:emptied_after_force_while_world0_has_rows", 1)
+            if w == 0:
+              rec.cover("hist:world0_emptied_after_force_while_others_have_rows", 1)
+        if last_nefc[w]:
+          # the transition itself: rows at the previous call, none now
+          rec.cover("hist:emptied_by:" + mech_of.get(w, "dynamics"), 1)
+          if last_qfrc[w] > 1e-3:
+            rec.cover("hist:emptied_right_after_nonzero_qfrc_constraint", 1)
+      else:
+        if was_empty_after_force[w] and last_nefc[w] == 0:
+          rec.cover("hist:refilled_after_empty", 1)
+          rec.cover("hist:refilled_by:" + mech_of.get(w, "dynamics"), 1)
+        if last_nefc[w] is not None and last_nefc[w] != nefc[w]:
+          rec.cover("hist:row_count_changed_nonzero", 1)
+      if qfc[w] > 1e-3 and nefc[w] > 0:
+        had_force[w] = True
+      last_nefc[w] = nefc[w]
+      last_qfrc[w] = float(qfc[w])
+  rec.cover("kind:hist", 1)
+  rec.cover("hist:nworld", str(nworld))
+  rec.cover("hist:keeper", "world0" if 0 in keepers else "last_world")
+  for name in info["eq"]:
+    rec.cover("features", "hist:eq:" + name)
+  if mjm.ntendon:
+    rec.cover("features", "hist:tendon_limit")
+  if mjm.opt.disableflags & mujoco.mjtDisableBit.mjDSBL_WARMSTART:
+    rec.cover("features", "hist:warmstart_disabled")
+  if nontriv:
+    rec.nontrivial(xml, case["seed"], *[s["qpos"] for s in states])
+  rec.sample = {"kind": "hist", "model": f"seed {case['seed']}", "nv": mjm.nv, "nworld": nworld, "keepers": sorted(keepers), "combo": combo, "calls": calls, "nefc_last": [int(x) for x in mw.npy(d.nefc)], "eq": info["eq"], "lifted0": info["lifted0"]}
+  return rec.result()
+
+
 def requirements(agg, tier):
   unmet = []
   cov = agg["cover"]
   q = tier == "quick"
+  # histories: a world that carried constraint force loses all its rows while another world keeps rows
+  for s in ("Newton", "CG"):
+    for c in ("pyramidal", "elliptic"):
+      for j in ("dense", "sparse"):
+        k = f"hist:emptied_after_force_others_have_rows:{s}:{c}:{j}"
+        if cov.get(k, 0) < (8 if q else 80):
+          unmet.append(f"too few history evaluations for {k}: {cov.get(k, 0)}")
+  hneed = {
+    "hist:emptied_after_force_while_world0_has_rows": 40,
+    "hist:world0_emptied_after_force_while_others_have_rows": 8,
+    "hist:emptied_right_after_nonzero_qfrc_constraint": 30,
+    "hist:refilled_after_empty": 20,
+    "hist:all_worlds_empty_evaluations": 2,
+    "hist:emptied_by:write_free": 8,
+    "hist:emptied_by:reset": 4,
+    "hist:emptied_by:eq_off": 2,
+    "hist:emptied_by:dynamics": 2,
+    "adm_worlds_without_rows": 60,
+  }
+  for k, v in hneed.items():
+    if cov.get(k, 0) < v:
+      unmet.append(f"{k}: {cov.get(k, 0)} < {v}")
   for s in ("Newton", "CG"):
     for c in ("pyramidal", "elliptic"):
       for j in ("dense", "sparse"):
